@@ -15,5 +15,5 @@ for s in "$@"; do
   else echo "ok $p seed=$s ${line#SUMMARY }"; fi
  done
 done
-rm -rf "$ROOT"
+[ $bad -eq 0 ] && rm -rf "$ROOT" || echo "replays kept in $ROOT"
 exit $bad
